@@ -47,6 +47,12 @@ abbrev CS := String × Nat
 def csLookup (name : String) : Option CS :=
   (lookup name PREDEFINED_COLORSPACE).map (fun n => (name, n))
 
+/-- `self.csmap[name]`: the predefined table overridden by the `ColorSpace` resources. -/
+def csLookupIn (res : Res) (name : String) : Option CS :=
+  match lookupCS name res.cspaces with
+  | some cs => some cs
+  | none => csLookup name
+
 /-- `next(iter(self.csmap.values()))`. -/
 def csDefault : CS := (PREDEFINED_COLORSPACE.head?).getD ("DeviceGray", 1)
 
@@ -231,7 +237,7 @@ def doShow (env : Env) (st : MState) (seq : List Elem) : MState × List Glyph :=
 
 /-- `_initial_color`. -/
 def initialColor (cs : CS) : Option Color :=
-  if cs.1 = "Pattern" then none
+  if cs.1 = "Pattern" ∨ cs.2 < 1 then none
   else if cs.1 = "DeviceCMYK" then some [0, 0, 0, 1]
   else
     let v : Rat := if cs.1 = "Separation" ∨ cs.1 = "DeviceN" then 1 else 0
@@ -370,14 +376,14 @@ def call (env : Env) (runForm : Form → MState → List Glyph × Bool) (st : MS
   | .cs, [n] =>
     match n with
     | .name s =>
-      match csLookup s with
+      match csLookupIn st.res s with
       | some cs => ({ st with ncs := cs, ncolor := initialColor cs }, [])
       | none => (st, [])
     | _ => (st, [])
   | .CS, [n] =>
     match n with
     | .name s =>
-      match csLookup s with
+      match csLookupIn st.res s with
       | some cs => ({ st with scs := cs, scolor := initialColor cs }, [])
       | none => (st, [])
     | _ => (st, [])
@@ -394,8 +400,10 @@ def call (env : Env) (runForm : Form → MState → List Glyph × Bool) (st : MS
         match env.forms[i]? with
         | none => (st, [])
         | some fm =>
+          -- a form that (directly or through other forms) invokes itself is ignored (`active_forms`)
+          if st.res.active.contains i then (st, []) else
           let matrix := fm.matrix.getD MATRIX_IDENTITY
-          let res := fm.res.getD st.res
+          let res : Res := { fm.res.getD st.res with active := i :: st.res.active }
           -- `init_resources` + `init_state(Matrix × ctm)`, then the caller's text and graphics state
           let st0 : MState := { MState.init (mult_matrix matrix st.ctm) res with
             ts := st.ts, scolor := st.scolor, ncolor := st.ncolor, scs := st.scs, ncs := st.ncs }
